@@ -250,6 +250,10 @@ def write_evidence(a, seed, units, mine, results, violations, undecided, known_h
         for s in u.get('sections', {}).get('assumes', '').split('\n'):
             if s.strip():
                 assumptions.add('%s: %s' % (n, s.strip()))
+        # model functions written in a unit's prelude (stand-ins for library code the unit does not extract): trusted, listed by name
+        for mm in re.finditer(r'^[A-Za-z_][\w \*]*?\b(\w+)\s*\([^;{}]*\)\s*\{', u.get('sections', {}).get('prelude', ''), re.M):
+            if u.get('kind') != 'lemma' or mm.group(1) != n:
+                assumptions.add('%s: model function %s() is written in the unit prelude (trusted stand-in, not extracted code)' % (n, mm.group(1)))
         for c in r.get('replaced', []):
             if c in units and units[c].get('kind') == 'stub':
                 assumptions.add('assumed contract (stub, not verified): %s -- %s' % (c, units[c].get('why', '')))
